@@ -219,3 +219,9 @@ func VerifyConsistency(first, second uint64, root1, root2 []byte, proof [][]byte
 	}
 	return nil
 }
+
+// LeafHashRawSHA256 is plain SHA-256 (identity hashes, key ids).
+func LeafHashRawSHA256(d []byte) []byte {
+	h := sha256.Sum256(d)
+	return h[:]
+}
